@@ -54,10 +54,11 @@ def lines(head, muts, chunk=CHUNK):
 
 
 def thin(rng, muts, k):
-    """a sample of k mutations that keeps the range substitutions (+n, -n) of the first components"""
+    """a sample of k mutations that keeps the range substitutions (+n, -n) and the identity points of the first components"""
     if len(muts) <= k:
         return muts
     must = [m for m in muts if m.endswith(":+n") or m.endswith(":-n")][:4]
+    must += [m for m in muts if m.endswith(":inf")][:3]                 # identity points of the leading components
     rest = [m for m in muts if m not in must]
     return must + rng.sample(rest, max(0, k - len(must)))
 
@@ -250,6 +251,7 @@ def cl_cases(rng, tier):
     muts += msg_muts(rng, m, 2 if quick else 10)
     if quick:
         muts = thin(rng, muts, 40)
+    muts += ["forge:b", "m=.,forge:b"]
     out += lines("cls %s %s" % (seed(rng), hx(m)), muts, chunk=14)
     for n in pick_lens(rng, quick, 2):
         m = rmsg(rng, n)
@@ -264,7 +266,8 @@ def cl_cases(rng, tier):
     muts += ["swap:x:y", "swap:y:z", "swap:a:A", "swap:b:B", "a:dbl,A:dbl,b:dbl,B:dbl,c:dbl", "z:inf,A:inf", "z:inf,A:inf,B:inf", "A:dbl,B:dbl"]
     muts += msg_muts(rng, m, 2 if quick else 10)
     if quick:
-        muts = thin(rng, muts, 48)
+        muts = thin(rng, muts, 46)
+    muts += ["forge:b", "forge:B", "forge:A", "a:inf,A:inf,b:inf,B:inf,c:inf"]
     out += lines("cli %s %s" % (seed(rng), hx(m)), muts, chunk=12)
     for n in pick_lens(rng, quick, 1):
         m = rmsg(rng, n)
@@ -284,7 +287,10 @@ def cl_cases(rng, tier):
         if l > 1:
             muts += ["m0=%s,m1=%s" % (hx(ms[1]), hx(ms[0])), "a:dbl,b:dbl,c:dbl," + ",".join("A%d:dbl,B%d:dbl" % (j, j) for j in range(l - 1))]
         if quick:
-            muts = thin(rng, muts, 44)
+            muts = thin(rng, muts, 40)
+        muts += ["forge:b", "a:inf,b:inf,c:inf," + ",".join("A%d:inf,B%d:inf" % (j, j) for j in range(l - 1))]
+        for j in range(l - 1):
+            muts += ["forge:B%d" % j, "forge:A%d" % j]
         out += lines("clb %s %d %s" % (seed(rng), l, " ".join(hx(x) for x in ms)), muts, chunk=11)
     return out
 
@@ -303,7 +309,8 @@ def ps_cases(rng, tier):
     muts += ["swap:x:y0", "swap:g:x", "swap:a:b", "a:dbl,b:dbl", "a:neg,b:neg", "g:inf,x:inf,y0:inf", "g:inf,x:inf,y0:inf,b:inf", "x:inf,y0:inf,b:inf",
              "x:inf,y0:inf", "g:dbl,x:dbl,y0:dbl", "g:neg,x:neg,y0:neg", "g:neg"]
     if quick:
-        muts = thin(rng, muts, 40)
+        muts = thin(rng, muts, 38)
+    muts += ["a:inf,b:inf", "a:inf,b:inf,x:inf,y0:inf"]
     out += lines("pss %s %s" % (seed(rng), hx(m)), muts, chunk=14)
     for n in ([0, 64] if quick else [0, 1, 31, 32, 33, 64, 100]):
         out += lines("pss %s %s" % (seed(rng), hx(rnd_scalar(rng, n))), ["m0:bit:0", "m0:+n"])
@@ -319,7 +326,8 @@ def ps_cases(rng, tier):
         muts += ["a:dbl,b:dbl", "g:inf,x:inf,b:inf," + ",".join("y%d:inf" % j for j in range(l)),
                  "g:inf,x:inf," + ",".join("y%d:inf" % j for j in range(l)), "x:inf,b:inf," + ",".join("y%d:inf" % j for j in range(l))]
         if quick:
-            muts = thin(rng, muts, 36)
+            muts = thin(rng, muts, 35)
+        muts += ["a:inf,b:inf"]
         out += lines("psb %s %d %s" % (seed(rng), l, " ".join(hx(x) for x in ms)), muts, chunk=12)
     # two-party versions
     m0, m1 = rnd_scalar(rng, 32), rnd_scalar(rng, 32)
@@ -329,7 +337,8 @@ def ps_cases(rng, tier):
     muts += ["swap:b0:b1", "swap:m00:m01", "m00:bit:0,m01:bit:0", "a:dbl,b0:dbl,b1:dbl", "a:dbl,b0:dbl", "x:inf,y0:inf,b0:inf,b1:inf",
              "g:inf,x:inf,y0:inf", "g:inf,x:inf,y0:inf,b0:inf,b1:inf", "swap:x:y0", "g:neg", "g:neg,x:neg,y0:neg"]
     if quick:
-        muts = thin(rng, muts, 40)
+        muts = thin(rng, muts, 38)
+    muts += ["a:inf,b0:inf,b1:inf", "a:inf,b0:neg,swap:b0:b1"]
     out += lines("mpss %s %s %s" % (seed(rng), hx(m0), hx(m1)), muts, chunk=14)
     for l, vflag in ([(2, 0), (2, 1)] if quick else [(1, 0), (2, 0), (3, 0), (1, 1), (2, 1), (3, 1)]):
         ms = [rnd_scalar(rng, rng.choice([1, 16, 32])) for _ in range(2 * l)]
@@ -339,7 +348,8 @@ def ps_cases(rng, tier):
         if l > 1:
             muts += ["swap:m00:m10", "swap:m00:m10,swap:m01:m11", "swap:y0:y1", "swap:m00:m10,swap:m01:m11,swap:y0:y1"]
         if quick:
-            muts = thin(rng, muts, 18)
+            muts = thin(rng, muts, 17)
+        muts += ["a:inf,b0:inf,b1:inf"]
         out += lines("mpsb %s %d %d %s" % (seed(rng), l, vflag, " ".join(hx(x) for x in ms)), muts, chunk=10)
     return out
 
@@ -399,6 +409,7 @@ def memory_cases(cases, limit=None):
     """the sub-cases that stress buffer sizing (identity points: 1-byte encodings; empty strings; thresholds and ring sizes;
     every shape of the homomorphic verifiers): run once more with the AddressSanitizer build of the library"""
     out = []
+    shapes = set()
     for ln in cases:
         t = ln.split()
         if "honest" not in t:
@@ -406,7 +417,9 @@ def memory_cases(cases, limit=None):
         k = t.index("honest")
         head, muts = t[:k], t[k + 1:]
         keep = [m for m in muts if ":inf" in m or m.startswith("thres:") or "ring:drop" in m or m.endswith("=.") or m.startswith("flen:")]
-        if keep or head[0] in ("mklhs", "cmlhs"):
+        shape = (head[0],) + tuple(head[2:-1])          # homomorphic verifiers: (bls,) signers, labels - once per shape
+        if keep or (head[0] in ("mklhs", "cmlhs") and shape not in shapes):
+            shapes.add(shape)
             out.append(" ".join(head + ["honest"] + keep))
     return out if limit is None else out[:limit]
 
